@@ -4,7 +4,8 @@
     [cinv]: a transcription of what `un_inverse` (src/compile/invert/un.rs) does on the catalogue:
     PrimPat / ImplPrimPat arms (un.rs `PrimPat`), InnerAnti with ANTI_PATTERNS entries
     `(Add, Sub) (Sub, Add) (Rotate, AntiRotate) (AntiRotate, Rotate)` (un.rs:262-272),
-    DipPat / BothPat / ImplBothPat /
+    JoinPat's last branch for a join preceded by a dipped function (un.rs:820-930, parameter [fixed]:
+    before / after commit 8f54207), DipPat / BothPat / ImplBothPat /
     BracketPat (un.rs:440-490) and the reversal of sequences (un_inverse_impl `node.prepend`, un.rs:70-96).
     Executable definitions only. *)
 From Coq Require Import List ZArith NArith Bool Arith Lia.
@@ -115,6 +116,12 @@ Definition unjoin_scalar (sh x : arr) : res (arr * arr) :=
   | [O], [O], _ => Err
   | _, _, _ => Unspec end.
 
+(** UnJoin (°⊂) on a list: its first element and the rest *)
+Definition unjoin1 (x : arr) : res (arr * arr) :=
+  match ash x, adata x with
+  | [S n], e :: d => Ok (Arr (aty x) [] [e], Arr (aty x) [n] d)
+  | _, _ => Unspec end.
+
 Definition prim_sem (p : pname) (stk : list arr) : res (list arr) :=
   match p, stk with
   | P_Identity, x :: r => Ok (x :: r)
@@ -139,6 +146,7 @@ Definition prim_sem (p : pname) (stk : list arr) : res (list arr) :=
   | P_AntiRotate, a :: b :: r => match ash a, adata a with [], [ENum c] => v <- rot_by (- c) b ;; ck v r | _, _ => Unspec end
   | P_Shape, x :: r => ck (p_shape x) r
   | P_Join, a :: b :: r => v <- join_scalar a b ;; ck v r
+  | P_UnJoin, x :: r => p <- unjoin1 x ;; ck2 (fst p) (snd p) r
   | P_UnJoinShape, sh :: x :: r => p <- unjoin_scalar sh x ;; ck2 (fst p) (snd p) r
   | P_MatchPattern, a :: b :: r => if arr_eqb a b then Ok r else Err
   | _, _ => Unspec end.
@@ -197,6 +205,8 @@ Definition prim_inv (p : pname) : option (list tn) :=
   | P_Box => Some [TP P_UnBox] | P_UnBox => Some [TP P_Box]
   | P_Fix => Some [TP P_UnFix] | P_UnFix => Some [TP P_Fix]
   | P_Couple => Some [TP P_UnCouple] | P_UnCouple => Some [TP P_Couple]
+  (* JoinPat with nothing in front of the join (un.rs JoinPat, last branch, count = 1) / ImplPrimPat *)
+  | P_Join => Some [TP P_UnJoin] | P_UnJoin => Some [TP P_Join]
   | _ => None end.
 (** InnerAnti: a literal followed by a dyadic function with an anti pattern *)
 Definition lit_inv (c : Z) (p : pname) : option (list tn) :=
@@ -215,32 +225,58 @@ Fixpoint tsize (n : tn) : nat :=
   | _ => 1 end.
 Fixpoint lsize (l : list tn) : nat := match l with [] => O | x :: t => S (tsize x + lsize t) end.
 
-(** [cinv fuel f]: the inverse the engine emits for the sequence f (reversal of the pieces) *)
-Fixpoint cinv (fuel : nat) (f : list tn) : option (list tn) :=
+Definition is_joinb (x : tn) : bool := match x with TP P_Join => true | _ => false end.
+(** a straight line of monadic 1 -> 1 pieces of the catalogue: join-free and with a balanced inverse,
+    the class for which commit 8f54207 keeps the dip (a sufficient condition of the code's
+    `sig.args() == sig.outputs() && !contains_join(inner)`, un.rs JoinPat invert_inner) *)
+Fixpoint mono1 (l : list tn) : bool :=
+  match l with
+  | [] => true
+  | TPush _ :: TP p :: r =>
+      match p with P_Add | P_Sub | P_Rotate | P_AntiRotate => mono1 r | _ => false end
+  | TP p :: r =>
+      match p with
+      | P_Identity | P_Neg | P_Not | P_Reverse | P_Box | P_UnBox | P_Fix | P_UnFix => mono1 r
+      | _ => false end
+  | _ => false end.
+
+(** [cinv fixed fuel f]: the inverse the engine emits for the sequence f (reversal of the pieces).
+    [fixed = false] is the engine BEFORE commit 8f54207: JoinPat's invert_inner put the inverse of a
+    dipped function that precedes a join after the un-join WITHOUT the dip (un.rs:877-905 at b634517);
+    [fixed = true] is the current engine: the dip is kept when the dipped function is join-free with a
+    balanced inverse (modelled for [mono1] functions; other dipped functions are outside the model). *)
+Fixpoint cinv (fixed : bool) (fuel : nat) (f : list tn) : option (list tn) :=
   match fuel with O => None | S fuel =>
   match f with
   | [] => Some []
   | TPush c :: TP p :: rest =>
-      obind (lit_inv c p) (fun i => obind (cinv fuel rest) (fun r => Some (r ++ i)))
+      obind (lit_inv c p) (fun i => obind (cinv fixed fuel rest) (fun r => Some (r ++ i)))
   | TP p :: rest =>
-      obind (prim_inv p) (fun i => obind (cinv fuel rest) (fun r => Some (r ++ i)))
+      obind (prim_inv p) (fun i => obind (cinv fixed fuel rest) (fun r => Some (r ++ i)))
   | TDip g :: rest =>
-      obind (cinv fuel g) (fun gi => obind (cinv fuel rest) (fun r => Some (r ++ [TDip gi])))
+      let generic := obind (cinv fixed fuel g) (fun gi => obind (cinv fixed fuel rest) (fun r => Some (r ++ [TDip gi]))) in
+      match rest with
+      | y :: rest' =>
+          if is_joinb y then
+            if fixed then (if mono1 g then generic else None)
+            else obind (cinv fixed fuel g) (fun gi => obind (cinv fixed fuel rest') (fun r => Some (r ++ TP P_UnJoin :: gi)))
+          else generic
+      | [] => generic end
   | TBoth a o g :: rest =>
-      obind (cinv fuel g) (fun gi => obind (cinv fuel rest) (fun r => Some (r ++ [TUnBoth o a gi])))
+      obind (cinv fixed fuel g) (fun gi => obind (cinv fixed fuel rest) (fun r => Some (r ++ [TUnBoth o a gi])))
   | TUnBoth a o g :: rest =>
-      obind (cinv fuel g) (fun gi => obind (cinv fuel rest) (fun r => Some (r ++ [TBoth o a gi])))
+      obind (cinv fixed fuel g) (fun gi => obind (cinv fixed fuel rest) (fun r => Some (r ++ [TBoth o a gi])))
   | TBracket a o g a' o' h :: rest =>
-      obind (cinv fuel g) (fun gi => obind (cinv fuel h) (fun hi =>
-        obind (cinv fuel rest) (fun r => Some (r ++ [TUnBracket o a gi o' a' hi]))))
+      obind (cinv fixed fuel g) (fun gi => obind (cinv fixed fuel h) (fun hi =>
+        obind (cinv fixed fuel rest) (fun r => Some (r ++ [TUnBracket o a gi o' a' hi]))))
   | TUnBracket a o g a' o' h :: rest =>
-      obind (cinv fuel g) (fun gi => obind (cinv fuel h) (fun hi =>
-        obind (cinv fuel rest) (fun r => Some (r ++ [TBracket o a gi o' a' hi]))))
+      obind (cinv fixed fuel g) (fun gi => obind (cinv fixed fuel h) (fun hi =>
+        obind (cinv fixed fuel rest) (fun r => Some (r ++ [TBracket o a gi o' a' hi]))))
   | _ => None end end.
 
 (** 0 = the real inverse is the one the model derives; 1 = it differs; 2 = outside the catalogue model *)
 Definition check_un_code (f g : list tn) : N :=
-  match cinv (S (lsize f)) f with
+  match cinv true (S (lsize f)) f with
   | Some g' => if tnl_eqb g' g then 0%N else 1%N
   | None => 2%N end.
 Definition check_un (f g : list tn) : bool := N.eqb (check_un_code f g) 0.
